@@ -101,6 +101,20 @@ pub fn sub_mark_n(ordinal: u64, s: &str) -> bool {
     true
 }
 
+static IS_WORKER: std::sync::atomic::AtomicBool = std::sync::atomic::AtomicBool::new(false);
+
+/// A case whose later sub-steps may kill the worker must not lose what its earlier
+/// sub-steps observed (the restarted worker skips those). Called between sub-steps:
+/// when the fragment holds a violation it is sent to the supervisor at once and
+/// emptied (so it is not counted twice when the case ends normally).
+pub fn checkpoint_violations(frag: &mut Frag) {
+    if frag.violations.is_empty() || !IS_WORKER.load(Ordering::Relaxed) {
+        return;
+    }
+    WorkerIo::new().frag(frag);
+    *frag = Frag::new();
+}
+
 /// ordinal of the sub-step in flight (u64::MAX: none / no shared marker)
 pub fn current_sub_ordinal() -> u64 {
     let p = SUB_PTR.load(Ordering::Relaxed);
@@ -149,6 +163,7 @@ pub fn run_worker_loop(check: &dyn Check, ctx: &Ctx, wa: &WorkerArgs) {
         sub_open(&p);
     }
     let mut io = WorkerIo::new();
+    IS_WORKER.store(true, Ordering::Relaxed);
     let mut n = check.ncases(ctx);
     // VERIF_MAX_CASES caps the workload (slow interpreters: Miri, valgrind)
     if let Some(m) = std::env::var("VERIF_MAX_CASES").ok().and_then(|s| s.parse::<u64>().ok()) {
